@@ -24,7 +24,7 @@ import (
 var families = map[string][]string{
 	"FuzzSMBMessage":    {"smb.Message.Unmarshal"},
 	"FuzzSMBTypes":      {"types.SMB_STRING.Unmarshal", "types.OEM_STRING.Unmarshal", "types.SMB_RESUME_KEY.Unmarshal", "types.SMB_DIRECTORY_INFORMATION.Unmarshal", "smb.Dialects.Unmarshal", "smb.Parameters.Unmarshal", "smb.Data.Unmarshal", "smb.utils.GetNullTerminatedUnicodeString", "types.SMB_FILE_ATTRIBUTES.Unmarshal", "types.LOCKING_ANDX_RANGE64.Unmarshal"},
-	"FuzzLLMNR":         {"llmnr.DecodeMessage", "llmnr.DecodeDomainName@any", "llmnr.DecodeResourceRecord"},
+	"FuzzLLMNR":         {"llmnr.DecodeMessage", "llmnr.DecodeDomainName@any", "llmnr.DecodeResourceRecord", "llmnr.DecodeDomainName@tail"},
 	"FuzzNBNS":          {"nbtns.NBTNSPacket.Unmarshal", "nbtns.FirstLevelDecode", "nbt.NBTTransport.Receive"},
 	"FuzzNTLMSPNEGO":    {"ntlm.ParseChallengeMessage", "ntlm.ParseTargetInfo", "spnego.ParseNegTokenResp", "spnego.ExtractNTLMToken", "spnego.AuthContext.ProcessChallengeToken"},
 	"FuzzKeyCredential": {"keycredential.KeyCredential.FromBytes", "keycredential.RSAKeyMaterial.FromBytes", "keycredential.CustomKeyInformation.FromBytes", "keycredential.DNWithBinary.Parse", "keycredential.ConvertToBinaryIdentifier"},
